@@ -325,6 +325,14 @@ func (c *CreateAndBroadcastOpeningTransaction) Execute(services *SwapServices, s
 		blindingKeyHex = hex.EncodeToString(blindingKey.Serialize())
 	}
 
+	// Get the starting height before anything is broadcast: a failure after
+	// the broadcast would cancel the swap without any record of the funding
+	// transaction.
+	startingHeight, err := txWatcher.GetBlockHeight()
+	if err != nil {
+		return swap.HandleError(err)
+	}
+
 	// Create the opening transaction
 	txHex, address, txId, _, vout, err := wallet.CreateOpeningTransaction(&OpeningParams{
 		TakerPubkey:      swap.GetTakerPubkey(),
@@ -342,10 +350,6 @@ func (c *CreateAndBroadcastOpeningTransaction) Execute(services *SwapServices, s
 	if err != nil {
 		log.Infof("Error labeling transaction. txid: %s, label: %s, error: %v",
 			txId, labels.Opening(swap.GetId().Short()), err)
-	}
-	startingHeight, err := txWatcher.GetBlockHeight()
-	if err != nil {
-		return swap.HandleError(err)
 	}
 	swap.StartingBlockHeight = startingHeight
 	if swap.GetChain() == l_btc_chain && swap.GetProtocolVersion() == PEERSWAP_PROTOCOL_VERSION {
